@@ -433,7 +433,9 @@ class Extractor:
         if k == "ret":
             return ("retn", self.expr(n.get("x")))
         if k == "break":
-            return self.expr(n.get("x"))
+            return ("brk", self.expr(n.get("x")))
+        if k in ("continue", "cont"):
+            return ("cont", ("nil",))
         if k == "path" and (n.get("def") or "").endswith("::None") and False:
             return ("nil",)
         if k == "assign":
@@ -687,6 +689,9 @@ def sym_key(s):
 
 
 RET = ("retn",)
+CONT = ("cont",)     # `continue`: ends the word of the current loop iteration
+BRK = ("brk",)       # `break`: ends the iteration (and the loop)
+ENDS = (RET, CONT, BRK)
 
 
 def language(node, inline=None, depth=0, limit=4000):
@@ -698,18 +703,21 @@ def language(node, inline=None, depth=0, limit=4000):
         return set()
     if k == "retn":
         # an early `return x`: the words of x, terminated (nothing that follows in an enclosing sequence is emitted)
-        return {w + (RET,) if not (w and w[-1] == RET) else w for w in language(node[1], inline, depth, limit)}
+        return {w + (RET,) if not (w and w[-1] in ENDS) else w for w in language(node[1], inline, depth, limit)}
+    if k in ("cont", "brk"):
+        m = CONT if k == "cont" else BRK
+        return {w + (m,) if not (w and w[-1] in ENDS) else w for w in language(node[1], inline, depth, limit)}
     if k == "p" or k == "tag":
         return {(node,)}
     if k == "ref":
         if inline and node[1] in inline and depth < 4:
-            return {tuple(x for x in w if x != RET) for w in language(inline[node[1]], inline, depth + 1, limit)}
+            return {tuple(x for x in w if x not in ENDS) for w in language(inline[node[1]], inline, depth + 1, limit)}
         return {(node,)}
     if k == "seq":
         words = {()}
         for x in node[1]:
             lx = language(x, inline, depth, limit)
-            words = {(a if (a and a[-1] == RET) else a + b) for a in words for b in lx}
+            words = {(a if (a and a[-1] in ENDS) else a + b) for a in words for b in lx}
             if len(words) > limit:
                 raise OverflowError("grammar too large")
         return words
@@ -719,7 +727,8 @@ def language(node, inline=None, depth=0, limit=4000):
             out |= language(x, inline, depth, limit)
         return out
     if k == "star":
-        body = frozenset(fold_tags(tuple(x for x in w if x != RET)) for w in language(node[1], inline, depth, limit))
+        # a `return` inside the body keeps terminating the enclosing word; `continue` / `break` end the iteration only
+        body = frozenset(fold_tags(tuple(x for x in w if x not in ENDS)) for w in language(node[1], inline, depth, limit))
         body = frozenset(w for w in body if w is not None)
         if body == frozenset({()}):
             return {()}
@@ -772,7 +781,7 @@ def expand_consts(w):
 def words(node, inline=None):
     ws = set()
     for w in language(node, inline):
-        f = fold_tags(tuple(x for x in w if x != RET))
+        f = fold_tags(tuple(x for x in w if x not in ENDS))
         if f is not None:
             for e in expand_consts(f):
                 ws.add(e)
